@@ -1,10 +1,15 @@
 """C04 -- scalar typing is total, deterministic and follows the documented type table."""
 from __future__ import annotations
 
+import re
+
+import json
+
 import itertools
 import math
 
 import gen
+import impl
 import spec
 from common import Ctx, enc, same, shrink
 
@@ -342,5 +347,24 @@ def _w2() -> bool:
     return isinstance(Parser().parse_value(NativeFormatter().format_value(float("inf"))), str)
 
 
-KNOWN_CLASSES = {"nonfinite_float": _nonfinite}
-WITNESSES = {"D2": _w2}
+def _d51(v: dict) -> bool:
+    """a run of more decimal digits than int() converts (sys.get_int_max_str_digits(), 4300 by default)"""
+    import sys
+    lim = getattr(sys, "get_int_max_str_digits", lambda: 4300)() or 10 ** 9
+    return bool(re.search(r"\d{%d,}" % (lim + 1), json.dumps(v.get("input"), default=repr)))
+
+
+def _w51() -> bool:
+    import sys
+    lim = getattr(sys, "get_int_max_str_digits", lambda: 4300)() or 0
+    if not lim:
+        return False
+    try:
+        impl.NativeParser().parse_value("9" * (lim + 1))
+    except ValueError:
+        return True
+    return False
+
+
+KNOWN_CLASSES = {"nonfinite_float": _nonfinite, "more_digits_than_int_accepts": _d51}
+WITNESSES = {"D2": _w2, "D51": _w51}
